@@ -75,10 +75,12 @@ func body(r *sim.Run) {
 	}
 	servers := []string{"a.example", "b.example", "a.example"}
 	// user IDs are case-sensitive: include pairs that differ only in case
-	users := []string{"@alice:a.example", "@bob:a.example", "@alice:b.example", "@Alice:a.example", "@alice:A.example", "@alice:a.example.org"}
+	users := []string{"@alice:a.example", "@bob:a.example", "@alice:b.example", "@Alice:a.example", "@alice:A.example", "@alice:a.example.org",
+		// the API takes any string: IDs without a sigil, made of the characters of the caveat prefixes, or looking like a caveat
+		"sid42", "desiree", "user_id = @alice:a.example", "time < 99999999999", "gen = 1", " @alice:a.example"}
 	// validation may also name users no token was issued for: a proper prefix
 	// of an issued user ID and the empty user ID
-	askUsers := append([]string{"@alice:a.exampl", "@alice:a.example.o", ""}, users...)
+	askUsers := append([]string{"@alice:a.exampl", "@alice:a.example.o", "", "42", "d42", "@alice:a.example ", "alice:a.example"}, users...)
 	// Start at a tape-chosen second inside the minute / hour so that minute
 	// and hour boundaries are crossed at varied offsets.
 	time.Sleep(time.Duration(sim.Pick(t, []int{0, 1, 30, 58, 59, 3540, 3599, 86399})) * time.Second)
